@@ -5,7 +5,6 @@ package beaconsim
 import (
 	"crypto"
 	"crypto/elliptic"
-	"crypto/sha256"
 	"encoding/asn1"
 	"fmt"
 	"math/big"
